@@ -16,13 +16,16 @@ class C01(core.Check):
     props_module = "CBV.Props.C01"
     workers = 8
     compare_level = "counts"
-    modes = [("well", 0.33), ("conflict", 0.2), ("double", 0.13), ("full", 0.12), ("under", 0.06), ("sandwich", 0.08), ("edge_conflict", 0.08)]
+    modes = [("well", 0.3), ("conflict", 0.18), ("double", 0.1), ("full", 0.1), ("under", 0.08), ("sandwich", 0.08), ("edge_conflict", 0.07), ("pair_conflict", 0.09)]
     rule = (
         "random subsets (1..8 quick / 1..14 thorough) of cells of a jittered, anisotropically scaled lattice "
         "(face, edge-only and vertex-only contacts, detached cells), each block with one of the 24 corner "
         "numberings, inserted in random order; per family of edges one chopped axis (well-posed), none, or two "
         "(same or conflicting counts); chop kinds: count, count+c2c, count+total, start+c2c, count+start, "
-        "count+end, two-section multigrading, all preserve modes. Non-trivial = at least two blocks share an "
+        "count+end, two-section multigrading, all preserve modes, single-cell counts; special modes: sandwich (also conflicting), "
+        "edge-only conflict, pair conflict with leaning neighbours, fully chopped; histories: second write (with vertex moves), chops "
+        "placed on the assembled mesh (Block.chop) then a third write, a typo in a multi-section chop corrected in place after the "
+        "refused write, one block entered with corner noise below the merging tolerance. Non-trivial = at least two blocks share an "
         "edge; distinct = different assembly/chops."
     )
     assumptions = [
@@ -113,6 +116,24 @@ class C01(core.Check):
                 )
         elif sec.get("outcome") == "hang":
             out.append({"site": "Mesh.write:hang:second-write", "what": "second write did not return"})
+        # chops placed on blocks of the assembled mesh afterwards (Block.chop), then written again
+        th = impl.get("third") or {}
+        if th.get("outcome") == "ok":
+            for v in pc.oracle_counts({"hex": th["hex"]}):
+                v["site"] += ":after-late-chops"
+                out.append(v)
+            if pc.expected_outcome(case, late=True) == "inconsistent":
+                out.append(
+                    {
+                        "site": "Mesh.write:conflicting-counts-written-after-late-chops",
+                        "what": f"chops {case.get('late')} placed on the assembled mesh make two chopped axes of one family "
+                        "demand different counts, but the dictionary was written",
+                    }
+                )
+        elif th.get("outcome") == "hang":
+            out.append({"site": "Mesh.write:hang:after-late-chops", "what": "write after late chops did not return"})
+        elif th.get("outcome") == "InconsistentGradingsError" and pc.expected_outcome(case, late=True) == "ok":
+            out.append({"site": "Mesh.write:consistent-chops-rejected:after-late-chops", "what": th.get("message")})
         if oc != "ok" and impl.get("file_written"):
             out.append({"site": "Mesh.write:file-left-after-error", "what": oc})
         return out
